@@ -911,6 +911,19 @@ impl<'a> G<'a> {
                 cands.push(("connflood", 0, b));
             }
         }
+        if client && some_sid != 0 {
+            // more pushed responses than the client's max_concurrent_streams allows at once: the surplus is refused,
+            // the connection survives (F31: it used to panic)
+            let p1 = 2 + 2 * (self.rng.below(30) as u32 + 100);
+            let mut b = vec![];
+            for k in 0..3u32 {
+                b.extend(wire(5, 4, some_sid, &[&(p1 + 2 * k).to_be_bytes()[..], &[0x82, 0x86, 0x84, 0x41, 0x01, b'a']].concat()));
+            }
+            for k in 0..3u32 {
+                b.extend(wire(1, 4, p1 + 2 * k, &[0x88]));
+            }
+            cands.push(("nokill", p1 + 4, b));
+        }
         if client {
             cands.push(("conn", 0, wire(1, 4, unused_peer_id, &[0x88])));                         // server opens a stream with HEADERS
             cands.push(("conn", 0, wire(5, 4, some_sid.max(1), &[0, 0, 0, 1, 0x82, 0x86, 0x84]))); // PUSH_PROMISE promising an odd id
